@@ -95,7 +95,7 @@ def enum_constraint_shapes(tier, seed):
     return [{"root": build.feat("R", kids()), "ctcs": [{"name": "K", "ast": e}]} for e in trees]
 
 
-def edit_histories(profile, max_feats=10, with_ctcs=False, max_edits=3):
+def edit_histories(profile, max_feats=10, with_ctcs=False, max_edits=3, formula_edits=False):
     """{"model": m, "edits": [m1, m2, ...]}: m_i+1 is a single-point structural edit of m_i (add a feature, remove
     a leaf, change a cardinality, move a sub-tree, split / merge relations, add / remove a constraint).  The check
     applies the edits IN PLACE to one library object (build.morph) and analyses it after every step."""
@@ -105,6 +105,8 @@ def edit_histories(profile, max_feats=10, with_ctcs=False, max_edits=3):
     def gen(draw):
         m = draw(S.model_specs(profile, 1, max_feats, with_ctcs=with_ctcs))
         only = c20.STRUCTURAL if with_ctcs else tuple(k for k in c20.STRUCTURAL if not k.endswith("-ctc"))
+        if formula_edits:
+            only = only + ("operator-same-kind", "operand-existing", "ctc-copy")
         edits, cur = [], m
         for _ in range(draw(st.integers(1, max_edits))):
             label, cur = c20.apply_edit(draw, cur, only=only)
